@@ -557,6 +557,10 @@ class SigmaDetections:
             raise sigma_exceptions.SigmaConditionError(
                 "Sigma rule must contain at least one condition", source=source
             )
+        if not all(isinstance(cond, str) for cond in condition):
+            raise sigma_exceptions.SigmaConditionError(
+                "Sigma rule conditions must be strings", source=source
+            )
 
         return cls(
             detections={
@@ -600,5 +604,5 @@ class EmptySigmaDetections(SigmaDetections):
     condition: list[str] = field(default_factory=list)
 
     def __post_init__(self: Self) -> None:
-        # Skip all checks and initializations
-        pass
+        # Skip all checks; the placeholder has no conditions to parse.
+        self.parsed_condition = []
